@@ -2,7 +2,7 @@
 // SPDX-License-Identifier: Apache-2.0
 // Copyright (c) A5 contributors
 
-use crate::core::serialization::FIRST_HILBERT_RESOLUTION;
+use crate::core::serialization::{FIRST_HILBERT_RESOLUTION, MAX_RESOLUTION};
 
 const AUTHALIC_AREA: f64 = 510065624779439.1; // m^2 - matches JavaScript Math.PI precision
 
@@ -16,7 +16,8 @@ const AUTHALIC_AREA: f64 = 510065624779439.1; // m^2 - matches JavaScript Math.P
 ///
 /// Number of cells at the given resolution
 pub fn get_num_cells(resolution: i32) -> u64 {
-    if resolution < 0 {
+    // There are no cells outside the supported resolutions (and 60 * 4^(r-1) overflows u64 beyond)
+    if !(0..=MAX_RESOLUTION).contains(&resolution) {
         return 0;
     }
     if resolution == 0 {
@@ -115,6 +116,6 @@ pub fn cell_area(resolution: i32) -> f64 {
         28 => 0.0004719055005832909,
         29 => 0.00011797637514582271,
         30 => 0.00002949409378645568,
-        _ => AUTHALIC_AREA / (get_num_cells(resolution) as f64),
+        _ => 0.0, // no cells beyond MAX_RESOLUTION
     }
 }
